@@ -33,8 +33,9 @@ PANIC_CALLS = ('std::rt::begin_panic', 'core::panicking::', 'std::rt::panic_fmt'
 
 
 def is_panic_call(n):
-    """A callee that can panic: one of PANIC_CALLS, or an integer power (`i64::pow` panics on overflow in debug builds)."""
-    return any(p in n for p in PANIC_CALLS) or (n.endswith('>::pow') and 'core::num::' in n)
+    """A callee that can panic: one of PANIC_CALLS, an integer power (`i64::pow` panics on overflow in debug builds), or
+    `clamp` (`Ord::clamp` / `f64::clamp` assert min <= max)."""
+    return any(p in n for p in PANIC_CALLS) or (n.endswith('>::pow') and 'core::num::' in n) or n.endswith('::clamp')
 
 
 NON_PANICKING = ('::unwrap_or', '::unwrap_or_else', '::unwrap_or_default', '::expect_none_never')
@@ -257,6 +258,18 @@ def _judge(ctx, oa, b, cfg, tr, bi, site, fams):
         return 'violation', 'unwrap', 'an unwrap()/expect() on a Result: an error would panic instead of being reported'
     if 'Uniform::<X>::new' in n:
         return _uniform_new(ctx, oa, b, tr, t)
+    if n.endswith('::clamp') and len(t['args']) == 3:
+        lo, hi = _const_number(tr, t['args'][1]), _const_number(tr, t['args'][2])
+        if isinstance(lo, (int, float)) and isinstance(hi, (int, float)) and lo <= hi:
+            return 'discharged', 'clamp-const', 'constant bounds %s <= %s' % (lo, hi)
+        from ..sizes import _plain
+        try:
+            ilo, ihi = _sizes(ctx).interval(b, t['args'][1]), _sizes(ctx).interval(b, t['args'][2])
+        except Exception:      # noqa: BLE001
+            ilo = ihi = None
+        if _plain(ilo) and _plain(ihi) and ilo[1] <= ihi[0]:
+            return 'discharged', 'clamp-ordered', 'lower bound <= %d <= %d <= upper bound' % (ilo[1], ihi[0])
+        return 'violation', 'clamp', 'clamp(min, max) panics when min > max (or a bound is NaN): the bounds are not shown to be ordered'
     if n.endswith('>::pow'):
         if 'core::num::' not in n or t['dest'].get('ty') not in ('u8', 'u16', 'u32', 'u64', 'u128', 'usize', 'i8', 'i16', 'i32', 'i64',
                                                                     'i128', 'isize'):
@@ -329,6 +342,34 @@ def _const_number(tr, op):
         return None
 
 
+def _assert_holds_by_value(ctx, b, bi):
+    """An Assert terminator (bounds check, overflow check) whose condition is decided by the values of the function that
+    contains it — `dof[index]` with `index` enumerating a 3-element array literal and `dof` a 3-element constant table: the
+    enclosing function is executed symbolically on every path (finite sequences iterated concretely, closures called by the
+    sequence models); the assertion holds when every evaluation of it found the passing constant."""
+    from ..sym import SymEx
+    f = ctx.facts
+    outer = b
+    if b.is_closure:
+        outer = f.body(b.closure_of) if b.closure_of else None
+        for _ in range(3):
+            if outer is not None and outer.is_closure and outer.closure_of:
+                outer = f.body(outer.closure_of)
+    if outer is None or outer.is_closure:
+        return None
+    sx = SymEx(f)
+    try:
+        outs = sx.run(outer, [SYM(outer.local_name(i) or 'arg%d' % i) for i in outer.args()])
+    except Exception:      # noqa: BLE001
+        return None
+    key = (b.path, bi)
+    if sx.aborted or not outs or sx.opaque_mut_calls:
+        return None
+    if key in sx.symbolic_asserts or key in sx.failed_asserts or key not in sx.concrete_asserts:
+        return None
+    return 'every evaluation of this check in %s found the passing constant (%d paths executed by value)' % (outer.fn_name, len(outs))
+
+
 def _unreachable_by_value(ctx, b, bi):
     """An assert!/panic! whose condition is decided by the values of the function itself (`assert!(a.len() >= b.len())` over two
     fixed-size tables): every path of the function is executed symbolically (callees by their definitions), symbolic conditions
@@ -346,6 +387,8 @@ def _unreachable_by_value(ctx, b, bi):
         return None
     if any(isinstance(o.ret, tuple) and o.ret and o.ret[0] == 'stopped' for o in outs):
         return None
+    if sx.opaque_mut_calls:
+        return None         # something the evaluator did not interpret may have changed a value the guard reads
     return 'no path of %s reaches the panic (%d paths executed by value, conditions decided by the function\'s own constants)' \
         % (b.fn_name, len(outs))
 
@@ -416,6 +459,9 @@ def _bounds(ctx, b, tr, bi, t):
         if c2 is not None and c1 == c2 and not _resized(b, tr, c2):
             return 'discharged', 'bounds-uniform-index', 'index = Uniform::new(0, len(_%d)).sample(..) into the never resized _%d' % (c2, c2)
     if io['o'] != 'const':
+        hv = _assert_holds_by_value(ctx, b, bi)
+        if hv:
+            return 'discharged', 'bounds-by-value', hv
         return 'violation', 'bounds', 'index is not a constant'
     k = const_value(io['c'])
     lo = tr.origin(ln)
@@ -432,6 +478,9 @@ def _bounds(ctx, b, tr, bi, t):
         n = const_value(lo['c'])
     if n is not None and isinstance(k, int) and k < n:
         return 'discharged', 'bounds-const', 'constant index %d < constant length %d' % (k, n)
+    hv = _assert_holds_by_value(ctx, b, bi)
+    if hv:
+        return 'discharged', 'bounds-by-value', hv
     return 'violation', 'bounds', 'constant index %s is not shown to be below the length' % k
 
 
